@@ -311,6 +311,9 @@ fn exec_history(t: &mut Tape, st: &mut Stats) -> Result<(), String> {
     }
     let mut off = 0usize;
     let mut desc = vec![];
+    // what was done to this body so far: (asked about, failed finishing attempt with, (input offset, input length, buffer)) -
+    // replayed on a twin to learn what the advertised maximum for the next buffer is *after this history*
+    let mut ops: Vec<(Option<usize>, Option<usize>, (usize, usize, usize))> = vec![];
     for i in 0..nsteps {
         let out = match t.weighted(&[3, 2, 2, 2]) {
             0 => t.range(6, 12),
@@ -334,8 +337,10 @@ fn exec_history(t: &mut Tape, st: &mut Stats) -> Result<(), String> {
         };
         // sometimes the caller first tries to end the body with a buffer that cannot hold the terminator (0..4 bytes): nothing is
         // emitted, the body is not finished, and the writes that follow must make progress as before
+        let mut failed_finish = None;
         if t.chance(12) {
             let small = t.below(5);
+            failed_finish = Some(small);
             let (c, p) = with_out(small, |o| s.write(&[], o)).map_err(|e| format!("step {}: finishing write into {} bytes failed: {:?}", i, small, e))?;
             if (c, p) != (0, 0) || s.finished() {
                 return Err(format!("step {}: finishing write into {} bytes reported ({}, {}), finished = {}", i, small, c, p, s.finished()));
@@ -344,8 +349,32 @@ fn exec_history(t: &mut Tape, st: &mut Stats) -> Result<(), String> {
             st.class("failed_finish_attempt_in_history");
         }
         let input = &pattern()[200 + off..200 + off + input_len];
-        // the advertised maximum for this buffer, asked on a fresh body (asking this body is itself part of some histories)
-        let m = Sender::new(Api::Flow, kind)?.max_input(out).unwrap_or(0);
+        // the advertised maximum for this buffer after this history, asked on a twin body that went through the same calls
+        // (asking this body is itself part of some histories; a fresh body's answer need not be this body's), and what the twin
+        // consumes when only that much is offered
+        let (m, c_twin) = {
+            let mut twin = Sender::new(Api::Flow, kind)?;
+            for (a, f, (o, l, b)) in &ops {
+                if let Some(k) = a {
+                    let _ = twin.max_input(*k);
+                }
+                if let Some(small) = f {
+                    let _ = with_out(*small, |x| twin.write(&[], x));
+                }
+                let _ = with_out(*b, |x| twin.write(&pattern()[200 + o..200 + o + l], x));
+            }
+            if let Some(k) = asked {
+                let _ = twin.max_input(k);
+            }
+            if let Some(small) = failed_finish {
+                let _ = with_out(small, |x| twin.write(&[], x));
+            }
+            let m = twin.max_input(out).unwrap_or(0);
+            let offer = m.min(input_len);
+            let c_twin = if offer == 0 { 0 } else { with_out(out, |x| twin.write(&input[..offer], x)).map(|r| r.0).unwrap_or(0) };
+            (m, c_twin)
+        };
+        ops.push((asked, failed_finish, (off, input_len, out)));
         let (c, p) = with_out(out, |o| s.write(input, o)).map_err(|e| format!("step {}: write(in = {}, out = {}) failed: {:?}", i, input_len, out, e))?;
         st.evals(1);
         desc.push(json!({"asked_max_input_for": asked, "in": input_len, "out": out, "consumed": c}));
@@ -354,7 +383,11 @@ fn exec_history(t: &mut Tape, st: &mut Stats) -> Result<(), String> {
         }
         // never less than had only the advertised maximum been offered (which is consumed completely: C18)
         if input_len >= m && c < m {
-            return Err(format!("step {} of a history: write of {} bytes into a {}-byte buffer consumed {} but the advertised maximum {} fits; history so far {:?}", i, input_len, out, c, m, desc));
+            // the advertised maximum is consumed completely when offered alone (C18), so offering at least that much consumes no less
+            return Err(format!("step {} of a history: write of {} bytes into a {}-byte buffer consumed {} but the advertised maximum {} (asked after the same history) fits; history so far {:?}", i, input_len, out, c, m, desc));
+        }
+        if input_len >= m && c < c_twin {
+            return Err(format!("step {} of a history: write of {} bytes into a {}-byte buffer consumed {} but offering only the advertised maximum {} consumes {}; history so far {:?}", i, input_len, out, c, m, c_twin, desc));
         }
         off += c;
     }
@@ -386,7 +419,7 @@ decodes to the consumed prefix. enumeration 'small' (thorough): all L <= 300 for
 whole-body send loops with a fixed buffer must terminate within |body| writes and decode to the body. \
 random 'histories': 2..10 writes on one body with buffers that grow and shrink (6..12, hex-digit boundaries, up to 12000), inputs \
 around the buffer size and around 16 / 256 / 4096 / 8192 / 10240, calculate_max_input() asked about the same or another size and failed finishing attempts (buffer 0..4) in \
-between, seven body kinds incl. Transfer-Encoding in another case / on two lines / next to a Content-Length: each write consumes >= 1, and at least the advertised maximum for its buffer when that much was offered; length-delimited histories interleave refused \
+between, seven body kinds incl. Transfer-Encoding in another case / on two lines / next to a Content-Length: each write consumes >= 1, and - when at least the advertised maximum for its buffer was offered - no less than that maximum and no less than a twin body consumes that went through the same history and is offered exactly its advertised maximum (the maximum is asked of the twin); length-delimited histories interleave refused \
 operations (overshooting write, overshooting direct-write report), after which legal writes must still consume min(in, out). non-trivial = chunked pair with L > n-5 and n >= 21, or n-5-L in {0,1}; distinct by (n, L, api); loops with >= 2 writes.",
     assumptions: &[
         "a fresh sender per (L, n) pair, so pairs are independent",
